@@ -12,17 +12,49 @@ pub enum Format {
     Json,
     Ron,
     Msgpack,
+    /// JSON written with `to_writer_pretty` (read as JSON).
+    JsonPretty,
+    /// RON with the `unwrap_newtypes` and `implicit_some` extensions on both sides.
+    RonExt,
+    /// RON written with `PrettyConfig::struct_names(true)`: newtype structs carry their NAME.
+    RonNamed,
+    /// MessagePack with structs as maps (`with_struct_map`).
+    MsgpackNamed,
 }
 
 impl Format {
-    pub const ALL: [Format; 3] = [Format::Json, Format::Ron, Format::Msgpack];
+    pub const ALL: [Format; 7] =
+        [Format::Json, Format::Ron, Format::Msgpack, Format::JsonPretty, Format::RonExt, Format::RonNamed, Format::MsgpackNamed];
+    /// The three wire formats in their default configuration.
+    pub const BASE: [Format; 3] = [Format::Json, Format::Ron, Format::Msgpack];
     pub fn name(self) -> &'static str {
         match self {
             Format::Json => "json",
             Format::Ron => "ron",
             Format::Msgpack => "msgpack",
+            Format::JsonPretty => "json_pretty",
+            Format::RonExt => "ron_unwrap_newtypes_implicit_some",
+            Format::RonNamed => "ron_struct_names",
+            Format::MsgpackNamed => "msgpack_struct_map",
         }
     }
+    pub fn base(self) -> Format {
+        match self {
+            Format::Json | Format::JsonPretty => Format::Json,
+            Format::Ron | Format::RonExt | Format::RonNamed => Format::Ron,
+            Format::Msgpack | Format::MsgpackNamed => Format::Msgpack,
+        }
+    }
+    /// In these configurations a newtype struct is encoded exactly as its inner value.
+    pub fn newtype_transparent_bytes(self) -> bool {
+        matches!(self, Format::Json | Format::JsonPretty | Format::Msgpack | Format::MsgpackNamed | Format::RonExt)
+    }
+}
+
+fn ron_ext() -> ron::Options {
+    ron::Options::default()
+        .with_default_extension(ron::extensions::Extensions::UNWRAP_NEWTYPES)
+        .with_default_extension(ron::extensions::Extensions::IMPLICIT_SOME)
 }
 
 #[derive(Clone, Copy, Debug, PartialEq, Eq, PartialOrd, Ord, Serialize, Deserialize)]
@@ -38,9 +70,10 @@ pub enum Api {
 /// Deserialize one `T` from the simulated reader.
 pub fn de<T: DeserializeOwned>(fmt: Format, api: Api, r: &mut SimReader) -> Result<T, String> {
     match (fmt, api) {
-        (Format::Json, Api::Reader) => serde_json::from_reader(&mut *r).map_err(|e| e.to_string()),
-        (Format::Ron, Api::Reader) => ron::de::from_reader(&mut *r).map_err(|e| e.to_string()),
-        (Format::Msgpack, Api::Reader) => rmp_serde::from_read(&mut *r).map_err(|e| e.to_string()),
+        (Format::Json | Format::JsonPretty, Api::Reader) => serde_json::from_reader(&mut *r).map_err(|e| e.to_string()),
+        (Format::Ron | Format::RonNamed, Api::Reader) => ron::de::from_reader(&mut *r).map_err(|e| e.to_string()),
+        (Format::RonExt, Api::Reader) => ron_ext().from_reader(&mut *r).map_err(|e| e.to_string()),
+        (Format::Msgpack | Format::MsgpackNamed, Api::Reader) => rmp_serde::from_read(&mut *r).map_err(|e| e.to_string()),
         (_, _) => {
             let bytes = r.slurp().map_err(|e| format!("io: {e}"))?;
             de_bytes(fmt, api, &bytes)
@@ -50,17 +83,22 @@ pub fn de<T: DeserializeOwned>(fmt: Format, api: Api, r: &mut SimReader) -> Resu
 
 pub fn de_bytes<T: DeserializeOwned>(fmt: Format, api: Api, bytes: &[u8]) -> Result<T, String> {
     match (fmt, api) {
-        (Format::Json, Api::Str) => {
+        (Format::Json | Format::JsonPretty, Api::Str) => {
             let s = std::str::from_utf8(bytes).map_err(|e| format!("utf8: {e}"))?;
             serde_json::from_str(s).map_err(|e| e.to_string())
         }
-        (Format::Json, _) => serde_json::from_slice(bytes).map_err(|e| e.to_string()),
-        (Format::Ron, Api::Str) => {
+        (Format::Json | Format::JsonPretty, _) => serde_json::from_slice(bytes).map_err(|e| e.to_string()),
+        (Format::Ron | Format::RonNamed, Api::Str) => {
             let s = std::str::from_utf8(bytes).map_err(|e| format!("utf8: {e}"))?;
             ron::de::from_str(s).map_err(|e| e.to_string())
         }
-        (Format::Ron, _) => ron::de::from_bytes(bytes).map_err(|e| e.to_string()),
-        (Format::Msgpack, _) => rmp_serde::from_slice(bytes).map_err(|e| e.to_string()),
+        (Format::Ron | Format::RonNamed, _) => ron::de::from_bytes(bytes).map_err(|e| e.to_string()),
+        (Format::RonExt, Api::Str) => {
+            let s = std::str::from_utf8(bytes).map_err(|e| format!("utf8: {e}"))?;
+            ron_ext().from_str(s).map_err(|e| e.to_string())
+        }
+        (Format::RonExt, _) => ron_ext().from_bytes(bytes).map_err(|e| e.to_string()),
+        (Format::Msgpack | Format::MsgpackNamed, _) => rmp_serde::from_slice(bytes).map_err(|e| e.to_string()),
     }
 }
 
@@ -85,12 +123,18 @@ pub fn de_json_stream<T: DeserializeOwned>(r: &mut SimReader) -> Vec<Result<T, S
 pub fn ser<T: Serialize + ?Sized>(fmt: Format, v: &T, w: &mut SimWriter) -> Result<(), String> {
     match fmt {
         Format::Json => serde_json::to_writer(&mut *w, v).map_err(|e| e.to_string()),
-        Format::Ron => {
-            // ron::ser::to_writer needs io::Write as well.
-            ron::ser::to_writer(&mut *w, v).map_err(|e| e.to_string())
-        }
+        Format::JsonPretty => serde_json::to_writer_pretty(&mut *w, v).map_err(|e| e.to_string()),
+        Format::Ron => ron::ser::to_writer(&mut *w, v).map_err(|e| e.to_string()),
+        Format::RonExt => ron_ext().to_writer(&mut *w, v).map_err(|e| e.to_string()),
+        Format::RonNamed => ron::Options::default()
+            .to_writer_pretty(&mut *w, v, ron::ser::PrettyConfig::new().struct_names(true))
+            .map_err(|e| e.to_string()),
         Format::Msgpack => {
             let mut s = rmp_serde::Serializer::new(&mut *w);
+            v.serialize(&mut s).map_err(|e| e.to_string())
+        }
+        Format::MsgpackNamed => {
+            let mut s = rmp_serde::Serializer::new(&mut *w).with_struct_map();
             v.serialize(&mut s).map_err(|e| e.to_string())
         }
     }
